@@ -52,6 +52,9 @@ pub struct Consumer {
     pub clone_handle:   bool,
     /// convert a unique handle into a shared one before releasing it (OgreUnique; C05)
     pub into_shared:    bool,
+    /// the consumer stops polling (keeping its stream alive) after this many items: what follows stays buffered
+    #[serde(default)]
+    pub max_items:      Option<u8>,
 }
 
 #[derive(Clone, Debug, Serialize, Deserialize)]
@@ -67,6 +70,9 @@ pub struct ChanCase {
     pub consumers:   Vec<Consumer>,
     /// async sends still suspended at the end of a producer's script: true = drive them to completion, false = leave them suspended for ever
     pub finish_async: bool,
+    /// tear the channel down without draining what is still buffered
+    #[serde(default)]
+    pub leftovers:   bool,
     pub schedule:    Schedule,
 }
 
@@ -139,6 +145,7 @@ pub struct ChanRun {
     /// per consumer: (tick, waking thread) of every wake of that consumer's task
     pub wakes:     Vec<Vec<(u64, usize)>>,
     pub dead_waker_uses: u32,
+    pub dead_waker_uses_superseded: u32,
     pub prefill:   Vec<u64>,
     pub pending_at_quiescence: u32,
     pub running_at_quiescence: u32,
@@ -151,6 +158,13 @@ pub struct ChanRun {
     /// number of producer threads
     pub n_producers: usize,
     pub open_after: Option<bool>,
+    /// a send of the sequential set-up phase (fewer events than BUFFER_SIZE, nothing consumed yet) was rejected
+    pub prefill_rejected: bool,
+    /// per thread: the operation it was executing when the run ended (meaningful for stalls)
+    pub cur_ops: Vec<String>,
+    pub running_after_drop: Option<u32>,
+    /// after every stream was dropped: could MAX_STREAMS new streams be created (no panic), and what did running_streams_count say then
+    pub recreate: Option<(bool, u32)>,
 }
 
 fn show_entry(e: Entry) -> String {
@@ -206,6 +220,7 @@ struct Log {
     lens:     Vec<LenRec>,
     cancels:  Vec<CancelRec>,
     consumers: Vec<ConsumerEnd>,
+    cur_ops:  Vec<String>,
 }
 
 struct PendingAsync {
@@ -221,6 +236,8 @@ pub struct Epilogue {
     pub drain: bool,
     /// after the drain, send BUFFER_SIZE+1 events (consuming nothing) and report how many were accepted
     pub capacity_probe: bool,
+    /// after dropping every stream: running_streams_count must be 0 and MAX_STREAMS new streams can be created
+    pub recreate_probe: bool,
 }
 
 pub fn execute(case: &ChanCase, epi: Epilogue) -> ChanRun {
@@ -229,7 +246,7 @@ pub fn execute(case: &ChanCase, epi: Epilogue) -> ChanRun {
     let chan: Arc<dyn Chan> = chan::make(case.kind, case.buffer, case.max_streams, case.origin);
     let n_prod = case.producers.len();
     let n_cons = case.consumers.len();
-    let log = Arc::new(Mutex::new(Log { consumers: vec![ConsumerEnd::default(); n_cons], ..Default::default() }));
+    let log = Arc::new(Mutex::new(Log { consumers: vec![ConsumerEnd::default(); n_cons], cur_ops: vec![String::new(); n_prod + n_cons], ..Default::default() }));
     // streams created up front, in consumer order
     let streams: Arc<Mutex<Vec<Option<Box<dyn StreamH>>>>> = Arc::new(Mutex::new((0..n_cons).map(|_| None).collect()));
     for (ci, c) in case.consumers.iter().enumerate() {
@@ -241,10 +258,11 @@ pub fn execute(case: &ChanCase, epi: Epilogue) -> ChanRun {
         }
     }
     let mut prefill = vec![];
+    let mut prefill_rejected = false;
     for i in 0..case.prefill {
         let v = payload::plain(200, i as u32 + 1);
         let r = chan.send(v);
-        assert!(r.accepted, "prefill rejected");
+        if !r.accepted { prefill_rejected = true; break; }
         prefill.push(v);
     }
 
@@ -278,14 +296,14 @@ pub fn execute(case: &ChanCase, epi: Epilogue) -> ChanRun {
     let mut run = ChanRun {
         end: outcome.end.clone(), trace: outcome.trace, inside: outcome.switches_inside_ops,
         sends: vec![], polls: vec![], releases: vec![], lens: vec![], cancels: vec![], consumers: vec![],
-        wakes: outcome.wakes[n_prod..].to_vec(), dead_waker_uses: outcome.dead_waker_uses, prefill,
+        wakes: outcome.wakes[n_prod..].to_vec(), dead_waker_uses: outcome.dead_waker_uses, dead_waker_uses_superseded: outcome.dead_waker_uses_superseded, prefill,
         pending_at_quiescence: 0, running_at_quiescence: 0, quiescence_tick, capacity_probe: None,
-        ledger: vec![], ledger_corrupt: 0, n_producers: n_prod, open_after: None,
+        ledger: vec![], ledger_corrupt: 0, n_producers: n_prod, open_after: None, prefill_rejected, cur_ops: vec![], running_after_drop: None, recreate: None,
     };
     if outcome.end != EndState::Completed {
         // the channel may be in a state its destructors cannot cope with (and threads were unwound mid-operation): leak everything
         let l = std::mem::take(&mut *log.lock().unwrap());
-        run.sends = l.sends; run.polls = l.polls; run.releases = l.releases; run.lens = l.lens; run.cancels = l.cancels; run.consumers = l.consumers;
+        run.sends = l.sends; run.polls = l.polls; run.releases = l.releases; run.lens = l.lens; run.cancels = l.cancels; run.consumers = l.consumers; run.cur_ops = l.cur_ops;
         std::mem::forget(streams.lock().unwrap().drain(..).collect::<Vec<_>>());
         std::mem::forget(chan);
         payload::set_current_ledger(None);
@@ -297,37 +315,72 @@ pub fn execute(case: &ChanCase, epi: Epilogue) -> ChanRun {
     // --- epilogue (sequential, on this thread; the library's hooks pass through here)
     let mut tick = quiescence_tick + 10;
     let mut live: Vec<(usize, Box<dyn StreamH>)> = streams.lock().unwrap().iter_mut().enumerate().filter_map(|(i, s)| s.take().map(|s| (i, s))).collect();
+    let suspended_for_ever = log.lock().unwrap().sends.iter().any(|s| s.unfinished);
     if epi.drain {
-        let waker = noop_waker();
-        for (ci, s) in live.iter_mut() {
-            let mut guard = 0;
-            loop {
-                guard += 1;
-                if guard > 4 * case.buffer as usize + 64 { break; }
-                let call = tick; tick += 1;
-                let r = s.poll(&waker);
-                let ret = tick; tick += 1;
-                let (res, item): (PollRes, Option<Item>) = match r {
-                    Poll::Ready(Some(it)) => (PollRes::Item { val: it.val(), intact: it.intact(), addr: it.addr() }, Some(it)),
-                    Poll::Ready(None) => (PollRes::End, None),
-                    Poll::Pending => (PollRes::Pending, None),
-                };
-                log.lock().unwrap().polls.push(PollRec { thread: 250, consumer: *ci as u8, stream: s.id(), call, ret, res, drain: true });
-                match item {
-                    Some(it) => {
-                        let intact_before = it.intact();
-                        let val = it.val();
-                        let c = tick; tick += 1;
-                        drop(it);
-                        let r = tick; tick += 1;
-                        log.lock().unwrap().releases.push(RelRec { val, consumer: *ci as u8, call: c, ret: r, intact_before });
-                    },
-                    None => break,
+        // the drain runs as one logical thread under its own scheduler: if a poll can never return (a lock held by a send that
+        // stays suspended for ever) that is a decided stall, not a hang
+        let dsched = Sched::new(1, Schedule::Sparse(vec![]), 20_000);
+        let holder: Arc<Mutex<Option<Vec<(usize, Box<dyn StreamH>)>>>> = Arc::new(Mutex::new(None));
+        let holder2 = Arc::clone(&holder);
+        let log2 = Arc::clone(&log);
+        let ledger2 = Arc::clone(&ledger);
+        let buffer = case.buffer as usize;
+        let live_in = LeakOnUnwind::new(std::mem::take(&mut live));
+        let tick0 = tick;
+        let body: Box<dyn FnOnce(&ThreadCtx) + Send> = Box::new(move |_ctx: &ThreadCtx| {
+            payload::set_current_ledger(Some(ledger2));
+            let mut live = live_in;
+            let mut tick = tick0;
+            let waker = noop_waker();
+            for (ci, s) in live.iter_mut() {
+                let mut guard = 0;
+                loop {
+                    guard += 1;
+                    if guard > 4 * buffer + 64 { break; }
+                    let call = tick; tick += 1;
+                    let r = s.poll(&waker);
+                    let ret = tick; tick += 1;
+                    let (res, item): (PollRes, Option<Item>) = match r {
+                        Poll::Ready(Some(it)) => (PollRes::Item { val: it.val(), intact: it.intact(), addr: it.addr() }, Some(it)),
+                        Poll::Ready(None) => (PollRes::End, None),
+                        Poll::Pending => (PollRes::Pending, None),
+                    };
+                    log2.lock().unwrap().polls.push(PollRec { thread: 250, consumer: *ci as u8, stream: s.id(), call, ret, res, drain: true });
+                    match item {
+                        Some(it) => {
+                            let intact_before = it.intact();
+                            let val = it.val();
+                            let it = LeakOnUnwind::new(it);
+                            let c = tick; tick += 1;
+                            drop(it);
+                            let r = tick; tick += 1;
+                            log2.lock().unwrap().releases.push(RelRec { val, consumer: *ci as u8, call: c, ret: r, intact_before });
+                        },
+                        None => break,
+                    }
                 }
             }
+            *holder2.lock().unwrap() = Some(live.take());
+        });
+        let dout = dsched.execute(vec![body]);
+        tick += 1000;
+        let got = holder.lock().unwrap().take();
+        match got {
+            Some(l) if dout.end == EndState::Completed => live = l,
+            _ => {
+                // the drain could not finish: report it as the end state of the run and leak everything
+                run.end = match dout.end { EndState::Stall { .. } => EndState::Stall { stuck: vec![(n_prod + n_cons, 0)], parked: vec![] }, other => other };
+                let l = std::mem::take(&mut *log.lock().unwrap());
+                run.sends = l.sends; run.polls = l.polls; run.releases = l.releases; run.lens = l.lens; run.cancels = l.cancels; run.consumers = l.consumers; run.cur_ops = l.cur_ops;
+                run.cur_ops.push("poll".into());
+                std::mem::forget(chan);
+                payload::set_current_ledger(None);
+                return run;
+            },
         }
     }
-    if epi.capacity_probe {
+    let _ = &mut tick;
+    if epi.capacity_probe && !suspended_for_ever {
         let mut accepted = 0;
         for i in 0..case.buffer as u32 + 1 {
             if chan.send(payload::plain(201, i + 1)).accepted { accepted += 1; }
@@ -335,12 +388,31 @@ pub fn execute(case: &ChanCase, epi: Epilogue) -> ChanRun {
         run.capacity_probe = Some(accepted);
     }
     run.open_after = Some(chan.is_open());
+    if suspended_for_ever {
+        // a send that stays suspended may hold ring state (a lock, a reservation) for ever: the destructors could spin on it
+        let l = std::mem::take(&mut *log.lock().unwrap());
+        run.sends = l.sends; run.polls = l.polls; run.releases = l.releases; run.lens = l.lens; run.cancels = l.cancels; run.consumers = l.consumers; run.cur_ops = l.cur_ops;
+        std::mem::forget(live);
+        std::mem::forget(chan);
+        payload::set_current_ledger(None);
+        return run;
+    }
     drop(live);
+    if epi.recreate_probe {
+        run.running_after_drop = Some(chan.running());
+        let chan2 = Arc::clone(&chan);
+        let n = case.max_streams as usize;
+        let created = std::panic::catch_unwind(std::panic::AssertUnwindSafe(move || { let v: Vec<Box<dyn StreamH>> = (0..n).map(|_| chan2.create_stream()).collect(); v }));
+        match created {
+            Ok(v) => { run.recreate = Some((true, chan.running())); drop(v); },
+            Err(_) => { run.recreate = Some((false, chan.running())); },
+        }
+    }
     drop(streams);
     drop(chan);
     payload::set_current_ledger(None);
     let l = std::mem::take(&mut *log.lock().unwrap());
-    run.sends = l.sends; run.polls = l.polls; run.releases = l.releases; run.lens = l.lens; run.cancels = l.cancels; run.consumers = l.consumers;
+    run.sends = l.sends; run.polls = l.polls; run.releases = l.releases; run.lens = l.lens; run.cancels = l.cancels; run.consumers = l.consumers; run.cur_ops = l.cur_ops;
     run.ledger = ledger.all();
     run.ledger_corrupt = ledger.corrupt();
     run
@@ -396,7 +468,7 @@ fn producer_body(ctx: &ThreadCtx, pi: usize, script: &[POp], chan: &dyn Chan, lo
         match r {
             Poll::Ready(res) => {
                 let ret = ctx.tick();
-                let steps = ctx.sched.step().saturating_sub(a.step0);
+                let steps = ctx.own_steps().saturating_sub(a.step0);
                 let mut g = log.lock().unwrap();
                 let rec = &mut g.sends[a.idx];
                 rec.ret = ret; rec.accepted = res.accepted; rec.contract_ok = res.contract_ok; rec.unfinished = false; rec.own_steps = steps;
@@ -406,6 +478,12 @@ fn producer_body(ctx: &ThreadCtx, pi: usize, script: &[POp], chan: &dyn Chan, lo
         }
     };
     for op in script {
+        log.lock().unwrap().cur_ops[pi] = match *op {
+            POp::Send(e) | POp::SendRetry(e) => crate::props::uni::entry_name(e).to_string(),
+            POp::Reserve => "reserve_slot".into(), POp::SendOldestReserved => "send_reserved".into(), POp::CancelNewestReserved => "cancel_reserved".into(),
+            POp::AsyncBegin(_) => "send_with_async".into(), POp::AsyncPoll => "send_with_async".into(), POp::Len => "pending_items_count".into(),
+            POp::CancelAll => "cancel_all_streams".into(), POp::Pause(_) => "pause".into(),
+        };
         match *op {
             POp::Send(entry) | POp::SendRetry(entry) => {
                 let retry = matches!(op, POp::SendRetry(_));
@@ -415,9 +493,9 @@ fn producer_body(ctx: &ThreadCtx, pi: usize, script: &[POp], chan: &dyn Chan, lo
                     tries += 1;
                     ctx.point("send.call");
                     let call = ctx.tick();
-                    let step0 = ctx.sched.step();
+                    let step0 = ctx.own_steps();
                     let res = ctx.op(|| one_send(ctx, chan, entry, v));
-                    let own_steps = ctx.sched.step().saturating_sub(step0);
+                    let own_steps = ctx.own_steps().saturating_sub(step0);
                     let ret = ctx.tick();
                     push_send(SendRec { thread: t, entry, val: v, call, ret, accepted: res.accepted, contract_ok: res.contract_ok, unfinished: false, own_steps, cancelled: false });
                     if res.accepted || !retry || tries >= 4 { break; }
@@ -456,7 +534,7 @@ fn producer_body(ctx: &ThreadCtx, pi: usize, script: &[POp], chan: &dyn Chan, lo
                 let gate = Arc::new(Gate::default());
                 gate.remaining.store(k as u32, Relaxed);
                 let call = ctx.tick();
-                let step0 = ctx.sched.step();
+                let step0 = ctx.own_steps();
                 let idx = push_send(SendRec { thread: t, entry: Entry::SendAsync(k), val: v, call, ret: u64::MAX, accepted: false, contract_ok: true, unfinished: true, own_steps: 0, cancelled: false });
                 let mut a = PendingAsync { fut: chan.send_async(v, gate), idx, step0 };
                 if !poll_async(ctx, &mut a) { asyncs.push(a); }
@@ -485,6 +563,7 @@ fn producer_body(ctx: &ThreadCtx, pi: usize, script: &[POp], chan: &dyn Chan, lo
             POp::Pause(n) => { for _ in 0..n { ctx.point("pause"); } },
         }
     }
+    log.lock().unwrap().cur_ops[pi] = if reservations.is_empty() { "send_with_async".into() } else { "send_reserved".into() };
     // completion phase: reservations are sent oldest-first; async sends are driven to completion (or abandoned)
     while !reservations.is_empty() {
         let (slot, idx) = reservations.remove(0);
@@ -511,22 +590,22 @@ fn send_reserved(ctx: &ThreadCtx, chan: &dyn Chan, log: &Arc<Mutex<Log>>, slot: 
     let v = log.lock().unwrap().sends[idx].val;
     chan.fill(slot, v);
     ctx.point("reserved.send");
-    let step0 = ctx.sched.step();
+    let step0 = ctx.own_steps();
     ctx.op(|| { while !chan.send_reserved(slot) { ctx.backoff(); } });
     let ret = ctx.tick();
     let mut g = log.lock().unwrap();
     let rec = &mut g.sends[idx];
-    rec.ret = ret; rec.accepted = true; rec.unfinished = false; rec.own_steps = ctx.sched.step().saturating_sub(step0);
+    rec.ret = ret; rec.accepted = true; rec.unfinished = false; rec.own_steps = ctx.own_steps().saturating_sub(step0);
 }
 
 fn cancel_reserved(ctx: &ThreadCtx, chan: &dyn Chan, log: &Arc<Mutex<Log>>, slot: usize, idx: usize) {
     ctx.point("reserved.cancel");
-    let step0 = ctx.sched.step();
+    let step0 = ctx.own_steps();
     ctx.op(|| { while !chan.cancel_reserved(slot) { ctx.backoff(); } });
     let ret = ctx.tick();
     let mut g = log.lock().unwrap();
     let rec = &mut g.sends[idx];
-    rec.ret = ret; rec.accepted = false; rec.cancelled = true; rec.unfinished = false; rec.own_steps = ctx.sched.step().saturating_sub(step0);
+    rec.ret = ret; rec.accepted = false; rec.cancelled = true; rec.unfinished = false; rec.own_steps = ctx.own_steps().saturating_sub(step0);
 }
 
 fn consumer_body(ctx: &ThreadCtx, ci: usize, tid: usize, cons: &Consumer, chan: &dyn Chan, log: &Arc<Mutex<Log>>, streams: &Arc<Mutex<Vec<Option<Box<dyn StreamH>>>>>) {
@@ -545,9 +624,11 @@ fn consumer_body(ctx: &ThreadCtx, ci: usize, tid: usize, cons: &Consumer, chan: 
     let mut waker = ctx.new_waker();
     let mut polls = 0u32;
     let mut yielded = 0u32;
+    if cons.max_items == Some(0) { streams.lock().unwrap()[ci] = Some(stream.take()); return; }
     loop {
         if cons.fresh_waker_at.iter().any(|&p| p as u32 == polls) { waker = ctx.new_waker(); }
         ctx.point("poll.call");
+        log.lock().unwrap().cur_ops[tid] = "poll".into();
         let call = ctx.tick();
         let r = ctx.op(|| stream.poll(&waker));
         let ret = ctx.tick();
@@ -556,6 +637,7 @@ fn consumer_body(ctx: &ThreadCtx, ci: usize, tid: usize, cons: &Consumer, chan: 
             Poll::Ready(Some(item)) => {
                 let (val, intact, addr) = (item.val(), item.intact(), item.addr());
                 log.lock().unwrap().polls.push(PollRec { thread: tid as u8, consumer: ci as u8, stream: stream.id(), call, ret, res: PollRes::Item { val, intact, addr }, drain: false });
+                log.lock().unwrap().cur_ops[tid] = "holding-item".into();
                 yielded += 1;
                 let mut item = item;
                 if cons.into_shared { item = match item.into_shared() { Ok(s) => s, Err(same) => same }; }
@@ -563,17 +645,19 @@ fn consumer_body(ctx: &ThreadCtx, ci: usize, tid: usize, cons: &Consumer, chan: 
                 let item = LeakOnUnwind::new(item);
                 for _ in 0..cons.hold { ctx.point("hold"); }
                 let intact_before = item.intact() && item.val() == val;
-                let c = ctx.tick();
+                let mut c = ctx.tick();
                 ctx.op(|| drop(item));
                 let mut r = ctx.tick();
                 if let Some(clone) = clone {
                     ctx.point("hold.clone");
                     let ok = clone.intact() && clone.val() == val;
+                    c = ctx.tick();     // (the release interval is that of the *last* handle)
                     ctx.op(|| drop(clone));
                     r = ctx.tick();
                     if !ok { log.lock().unwrap().releases.push(RelRec { val, consumer: ci as u8, call: c, ret: r, intact_before: false }); continue; }
                 }
                 log.lock().unwrap().releases.push(RelRec { val, consumer: ci as u8, call: c, ret: r, intact_before });
+                if cons.max_items == Some(yielded as u8) { break; }
                 if cons.stop_after == Some(yielded as u8) {
                     ctx.point("drop_stream.call");
                     let call = ctx.tick();
